@@ -4,7 +4,7 @@
      seq A A R0 A ...                     -> cell returned by each alloc ("-" for a release), single thread
      sched[0|1] A,A,R0;A | 0 0 1 0 ...    -> bad=<b> owners=<cells owned per thread> free=<..> ub=<b>
                                              (sched: locked as regenerated from the source; sched0/sched1: forced)
-     stop <do_simp> <n|-1> e+ e. e! i- iT iF iU r- rT rF rU ...
+     stop <do_simp> <n|-1> e+ e. e! i- iT iF iU p+ p- r- rT rF rU ...   (p+: propagate() found a conflict)
                                           -> <T|F|U|none> <polls>   (n = poll at which the request becomes visible)
      predict <N> <T|F|U> <n>              -> T|F|U
    nat stays the Coq datatype; the conversions below are the only arithmetic done outside Coq. *)
@@ -51,6 +51,7 @@ let ev_of_string w =
   match w.[0], w.[1] with
   | 'e', '+' -> St.EvElim St.EMore | 'e', '.' -> St.EvElim St.EDone | 'e', '!' -> St.EvElim St.EConflict
   | 'i', '-' -> St.EvInit None | 'i', c -> St.EvInit (Some (lb_of_char c))
+  | 'p', '+' -> St.EvProp true | 'p', '-' -> St.EvProp false
   | 'r', '-' -> St.EvRest St.Cont | 'r', c -> St.EvRest (St.Ret (lb_of_char c))
   | _ -> failwith ("bad event " ^ w)
 
@@ -60,7 +61,7 @@ let do_stop = function
     let script = List.map ev_of_string evs in
     let fuel = snat_of_int (4 * List.length evs + 40) in
     let f = if n < 0 then St.nostop else St.stop_at_poll (snat_of_int n) in
-    let (r, polls) = St.run_script (ds = "1") fuel f script in
+    let (r, polls) = St.run_script St.poll_after_conflict (ds = "1") fuel f script in
     Printf.sprintf "%s %d" (match r with None -> "none" | Some r -> s_of_lb r) (int_of_snat polls)
   | _ -> "bad-request"
 
@@ -70,8 +71,8 @@ let () =
       let out =
         try
           match words l with
-          | ["consts"] -> Printf.sprintf "locked=%s discipline=%d atomic=%s lookahead_polls=%s" (b2s P.locked)
-                            (int_of_pnat P.discipline) (b2s St.atomic) (b2s St.lookahead_polls)
+          | ["consts"] -> Printf.sprintf "locked=%s discipline=%d atomic=%s lookahead_polls=%s poll_after_conflict=%s" (b2s P.locked)
+                            (int_of_pnat P.discipline) (b2s St.atomic) (b2s St.lookahead_polls) (b2s St.poll_after_conflict)
           | "seq" :: ws -> do_seq ws
           | "sched" :: _ -> do_sched P.locked (String.sub l 5 (String.length l - 5))
           | "sched0" :: _ -> do_sched false (String.sub l 6 (String.length l - 6))
